@@ -88,12 +88,12 @@ def run(tier, seed):
         sw = rng.choice(switch_sets)
         sub = [rng.choice(GROUPS) for _ in range(rng.randrange(1, 6))]
         cfgs.append(dict(zip(['every', 'term', 's', 'N', 'H', 'only'], sw), sevs=sub, lookup=0))
-    for attr in ['plid', 'src', 'bmcID', 'pelID']:
+    for attr in ['plid', 'src', 'bmcID', 'pelID', 'srcExcludeFile']:
         cfgs.append(dict(every=0, term=0, s=0, N=0, H=0, only=0, sevs=[], lookup=1, lookup_attr=attr))
     for _ in range(200 if thorough else 60):
         sw = rng.choice(switch_sets)
         cfgs.append(dict(zip(['every', 'term', 's', 'N', 'H', 'only'], sw), sevs=[g for g in GROUPS if rng.random() < 0.3],
-                         lookup=1, lookup_attr=rng.choice(['plid', 'src', 'bmcID', 'pelID'])))
+                         lookup=1, lookup_attr=rng.choice(['plid', 'src', 'bmcID', 'pelID', 'srcExcludeFile'])))
     work = [(af, c) for c in cfgs for af in (afs if thorough else rng.sample(afs, 10) + afs[:24:3])]
     replies = lean_batch(['selrow %d %s' % (af, cfg_tokens(c)) for af, c in work])
     for (af, c), r in zip(work, replies):
